@@ -340,6 +340,21 @@ def rule_ctl3(prog, labeller, table, tier):
                         handler.short(), 'raise:' + key,
                         'handler of %s raises %r' % (key, v.exc)))
                     continue
+                # the sets returned for subformulas are their memo entries:
+                # a handler must not modify them
+                for e in p.log:
+                    if e.kind == 'mutate' and isinstance(e.target, Sym) and \
+                            e.target.meta and e.target.meta[0] == 'sat':
+                        r.fail(Finding(
+                            PROP, 'R-CTL-5', I.where(e.node, handler.module),
+                            handler.short(),
+                            'child-set-mutated:%s:%s' % (key, e.name),
+                            'the handler of %s calls .%s() on the set '
+                            'returned for subformula %d: that set is the '
+                            'memo entry of the subformula, so its cached '
+                            'answer changes (e.g. (p or q) and not p is '
+                            'answered wrongly)' % (key, e.name,
+                                                   e.target.meta[1])))
                 outs.append((I.snapshot(v, p), p, L))
         elif kind[0] == 'inline':
             handler = labeller
@@ -367,6 +382,10 @@ def rule_ctl3(prog, labeller, table, tier):
                 nm += 1
                 env = {K: g, '$labels': labels,
                        Sym('apname'): 'p'}
+                if key == 'Atom':
+                    ld = dict(labels)
+                    ld['not-a-state'] = frozenset(['p'])
+                    env['$labeldict'] = ld
                 for i, x in enumerate(P):
                     env[Sym('P%d' % i)] = x
                 want = spec_value(key, g, P, labels)
